@@ -539,6 +539,12 @@ class PlayMode(vlib.Mode):
             if rng.random() < 0.3:   # a file of well-formed lines only
                 good = [hx(gen_rendered(rng)[0]) for _ in range(rng.choice([1, 4, 8]))]
                 case.append(" ".join(["check"] + good))
+            if rng.random() < 0.35:  # the same lines as ONE file through the line reader: every line-ending convention, with and without a final newline
+                fl = [l for l in rng.sample(lines, min(len(lines), rng.choice([1, 2, 5, 12]))) if b"\n" not in l and b"\r" not in l]
+                if fl:
+                    nl = rng.choice([b"\n", b"\n", b"\r\n"])
+                    text = nl.join(fl) + rng.choice([nl, b"", b"", nl + nl])
+                    case.append(f"byline {hx(text)}")
             cases.append(case)
         # (b) filter histories
         fpats = [b"a", b"b", b"^a", b"b$", b"", b"hb", b"[0-9]+", rb"^\s*\{", b"x|y", b".", b"a("]
@@ -629,6 +635,15 @@ class PlayMode(vlib.Mode):
                 if o != want:
                     sig = "check-not-iff-malformed"
                     fails.append((sig, f"Check over {[unhx(h) for h in f[1:]]} answered {o}; malformed lines by the grammar: {want}"))
+            elif f[0] == "byline" and len(f) == 2:
+                text = unhx(f[1])
+                pieces = text.split(b"\n")
+                if pieces and pieces[-1] == b"": pieces = pieces[:-1]
+                want = f"byline n={len(pieces)} agree=t err=0"
+                final_nl = text.endswith(b"\n")
+                if o != want:
+                    fails.append(("file-lines-not-one-value-each", f"a file of {len(pieces)} line(s) (final newline: {final_nl}) read line by line gave: {o}; "
+                                  f"expected one value per line, each as ParseLine gives it: {want}"))
             elif f[0] == "dur" and len(f) == 2:
                 d = go_duration(unhx(f[1]))
                 want = "err" if d is None else f"ok {d}"
